@@ -75,7 +75,7 @@ def pluralitySig : Sig := { seats := true, prev := false, max := false }
 def inputOrderLeaf : Sem := fun a => do
   let kvs ← a.votes.items
   match a.n, kvs with
-  | some .none, [] => pure (.list [])       -- `i < None` is never evaluated on an empty dict
+  | some _, [] => pure (.list [])           -- `i < n_seats` is never evaluated on an empty dict
   | _, _ => do
     let n ← seatsDefault1 a.n
     pure (.list ((kvs.take n).map (fun p => V.ofKey p.1)))
@@ -130,7 +130,7 @@ def haLeaf (div : Nat → Rat) : Sem := fun a => do
     | .cand c => if c ≥ freshBase then Option.none else some (Key.cand c, V.num p.2)
     | k => some (keyV k, V.num p.2))))
 
-def haSig : Sig := { seats := true, prev := true, max := true }
+def haSig : Sig := { seats := true, prev := true, max := true, needs := true }
 
 /-- AbsoluteThreshold.evaluate (threshold.py L39-52) -/
 def absThreshold (t : Rat) (eq : Bool) (votes : Votes) : List Cand :=
